@@ -392,8 +392,9 @@ func (e *rtEnv) execRtOp(o []string) []string {
 		}
 		return out
 	case "tracehelper":
-		// tracehelper <withbody> <escaped-len> method path body hk hv
+		// tracehelper <withbody> <escaped-len> method path body hk hv <escaped dump>
 		rw := newRecW()
+		rw.keep = true
 		var body io.Reader
 		if o[5] != "" {
 			body = strings.NewReader(o[5])
@@ -407,7 +408,7 @@ func (e *rtEnv) execRtOp(o []string) []string {
 			return []string{"panic", cls}
 		}
 		rw.finish()
-		return rw.obs()
+		return append(rw.obs(), "body", string(rw.bytes))
 	case "syntax":
 		var err error
 		cls := guard(func() { err = mux.CheckSyntax(o[1]) })
@@ -467,6 +468,8 @@ type recW struct {
 	status int
 	sent   http.Header
 	body   int
+	keep   bool   // record the body bytes too (Trace helper)
+	bytes  []byte
 }
 
 func newRecW() *recW { return &recW{h: http.Header{}} }
@@ -483,6 +486,9 @@ func (w *recW) WriteHeader(c int) {
 func (w *recW) Write(b []byte) (int, error) {
 	w.WriteHeader(200)
 	w.body += len(b)
+	if w.keep {
+		w.bytes = append(w.bytes, b...)
+	}
 	return len(b), nil
 }
 func (w *recW) finish() { w.WriteHeader(200) }
